@@ -63,6 +63,11 @@ StimuliFor(j) ==
              encs == UNION {{EncodeType(d, X, v).bytes : v \in WellFormed(d, X, ValSet(d, X))} : X \in sub}
          IN {[k |-> m, bytes |-> b, val |-> NoneV, label |-> <<"descendant">>] : b \in encs}
             \cup {[k |-> m, bytes |-> s.bytes, val |-> NoneV, label |-> s.label] : s \in DecStimuli(d, P)}
+    [] m = "javaparse" ->
+         LET sub == Descendants(d, id, 6)
+             encs == UNION {{EncodeType(d, X, v).bytes : v \in WellFormed(d, X, ValSet(d, X))} : X \in sub}
+         IN {[k |-> "javaparse", bytes |-> b, val |-> NoneV, label |-> <<"descendant">>] : b \in encs}
+            \cup {[k |-> "javaparse", bytes |-> s.bytes, val |-> NoneV, label |-> s.label] : s \in DecStimuli(d, id)}
     [] m = "pyparse" ->
          LET sub == Descendants(d, id, 6)
              encs == UNION {{EncodeType(d, X, v).bytes : v \in WellFormed(d, X, ValSet(d, X))} : X \in sub}
@@ -179,8 +184,14 @@ PyParseResult(j, s) ==
   IN [job |-> j, k |-> "pyparse", label |-> s.label, bytes |-> s.bytes, faults |-> r.faults,
       cls |-> r.cls, val |-> r.val, refaults |-> re.faults, reenc |-> re.bytes]
 
+JavaParseResult(j, s) ==
+  [job |-> j, k |-> "javaparse", label |-> s.label, bytes |-> s.bytes,
+   faults |-> DecodeFull(D(j), T(j), s.bytes).faults,
+   outcomes |-> JavaOutcomes(D(j), T(j), s.bytes)]
+
 Emit ==
   \/ stim.k = "none"
+  \/ stim.k = "javaparse" /\ PrintT(<<"VEC", ToJson(JavaParseResult(job, stim))>>)
   \/ stim.k = "pyparse" /\ PrintT(<<"VEC", ToJson(PyParseResult(job, stim))>>)
   \/ stim.k = "spec" /\ PrintT(<<"VEC", ToJson(SpecResult(job, stim))>>)
   \/ stim.k = "down" /\ PrintT(<<"VEC", ToJson(DownResult(job, stim))>>)
